@@ -19,6 +19,24 @@ const later = (x) => {
 };
 const p = () => { return 1; }; function q(): number { return 2; }
 """,
+        "object-return-types": """function origin(): { x: number, y: number } {
+  return { x: 0, y: 0 };
+}
+function pick(a: string): string;
+function pick(a: any): { v: any; w?: { deep: number } } {
+  switch (a) {
+    case toKind(1): {
+      return { v: a };
+    }
+  }
+  return { v: a };
+}
+abstract class Base {
+  abstract area(): { w: number; h: number };
+  size(): { w: number } { return { w: 1 }; }
+}
+declare function ext(a: number): { r: number };
+""",
         "interface-signatures": """interface Shape {
   origin: { x: number; y: number };
   area(scale: number): number;
